@@ -50,12 +50,36 @@ fn run(case: &Case, dir: &str) -> Verdict {
     let arena = Bump::new();
     let n_commits = case.extra.get("commits").and_then(|x| x.as_u64()).unwrap_or(2) as u32;
     let legacy = case.extra.get("legacy").and_then(|x| x.as_bool()).unwrap_or(false);
-    let src = match &case.steps {
+    // "upgrade": the file is in the legacy format *before* its last commit, which the current
+    // code then makes: one header is new-format, the other still legacy
+    let upgrade = legacy && n_commits >= 1 && case.extra.get("upgrade").and_then(|x| x.as_bool()).unwrap_or(false);
+    let first_part = if upgrade { n_commits - 1 } else { n_commits };
+    let (steps1, steps2): (Option<Vec<crate::step::Step>>, Option<Vec<crate::step::Step>>) = match &case.steps {
+        Some(all) if upgrade => {
+            // explicit history (a replay): the first part ends with its last commit
+            let mut seen = 0u32;
+            let mut cut = 0usize;
+            for (i, st) in all.iter().enumerate() {
+                if seen == first_part {
+                    cut = i;
+                    break;
+                }
+                if matches!(st, crate::step::Step::Commit) {
+                    seen += 1;
+                    cut = i + 1;
+                }
+            }
+            (Some(all[..cut].to_vec()), Some(all[cut..].to_vec()))
+        }
+        Some(all) => (Some(all.clone()), None),
+        None => (None, None),
+    };
+    let src = match &steps1 {
         Some(s) => Source::List(s.iter().cloned().collect()),
         None => {
             let mut g = props::gen_for(&case.property, case);
             g.cfg.marker = true;
-            g.cfg.txs = n_commits + 3;
+            g.cfg.txs = first_part + 3;
             g.cfg.p_drop = 0;
             g.cfg.p_ro = 0;
             g.cfg.p_reopen = g.cfg.p_reopen.min(20);
@@ -70,8 +94,9 @@ fn run(case: &Case, dir: &str) -> Verdict {
     // other properties' oracles are not consulted: they would only end runs early
     ecfg.fsck_commit = false;
     ecfg.oracles = vec![];
-    ecfg.stop_after_commit = Some(n_commits);
-    let out = if n_commits == 0 {
+    ecfg.stop_after_commit = Some(first_part);
+    let ecfg_part2 = ecfg.clone();
+    let out = if first_part == 0 {
         // a freshly created database: open and close
         let mut e2 = ecfg.clone();
         e2.stop_after_commit = None;
@@ -83,9 +108,62 @@ fn run(case: &Case, dir: &str) -> Verdict {
     if out.aborted.is_some() {
         return v;
     }
-    if out.commits.len() as u32 != n_commits {
-        v.skipped = Some(format!("history produced {} commits, wanted {}", out.commits.len(), n_commits));
+    if out.commits.len() as u32 != first_part {
+        v.skipped = Some(format!("history produced {} commits, wanted {}", out.commits.len(), first_part));
         return v;
+    }
+    let mut out = out;
+    if upgrade {
+        // the closed file becomes a legacy-format file (both headers re-stamped with SHA3-256) ...
+        let ps = case.pagesize;
+        let (img0, _) = match simos::file_view_prefix(&path, 2 * ps as usize) {
+            Some(x) => x,
+            None => {
+                v.harness_error = Some("no file view".into());
+                return v;
+            }
+        };
+        for slot in 0..2u64 {
+            if let Some(h) = fsck::valid_header(&img0, slot, ps, false) {
+                let base = (slot * ps) as usize;
+                let mut page = img0[base..base + ps as usize].to_vec();
+                for b in page[fsck::REC_OFF..fsck::REC_OFF + fsck::REC_LEN_OLD].iter_mut() {
+                    *b = 0;
+                }
+                fsck::write_header(&mut page, &h, true);
+                simos::damage(&path, base as u64, &page[..fsck::REC_OFF + fsck::REC_LEN_OLD]);
+            }
+        }
+        // ... and the current code makes one more commit on it
+        let mut e2 = ecfg_part2;
+        e2.stop_after_commit = Some(1);
+        let src2 = match steps2 {
+            Some(st) => Source::List(st.into_iter().collect()),
+            None => {
+                let mut c2 = case.clone();
+                c2.seed = mix(case.seed, 0x1E6A);
+                let mut g = props::gen_for(&case.property, &c2);
+                g.cfg.marker = true;
+                g.cfg.txs = 4;
+                g.cfg.p_drop = 0;
+                g.cfg.p_ro = 0;
+                g.cfg.p_reopen = 0;
+                g.cfg.tx_len.1 = g.cfg.tx_len.1.min(10);
+                g.cfg.bulk_len = (5, 30);
+                Source::Gen(Box::new(g))
+            }
+        };
+        let out2 = Engine::new(e2, src2, &arena).with_initial(out.final_model.clone()).run();
+        v.issued.extend(out2.issued.iter().cloned());
+        if out2.aborted.is_some() {
+            v.aborted = out2.aborted.clone();
+            return v;
+        }
+        if out2.commits.len() != 1 {
+            v.skipped = Some("the commit after the upgrade did not happen".into());
+            return v;
+        }
+        out = out2;
     }
     let (mut img, len) = match simos::file_view(&path) {
         Some(x) => x,
@@ -114,7 +192,7 @@ fn run(case: &Case, dir: &str) -> Verdict {
     let empty = MBucket::default();
     let state_new: &MBucket = out.commits.last().map(|c| &*c.post).unwrap_or(&empty);
     let state_old: &MBucket = out.commits.last().map(|c| &*c.pre).unwrap_or(&empty);
-    if legacy {
+    if legacy && !upgrade {
         // rewrite both headers in the 0.10 format (same fields, SHA3-256)
         for slot in 0..2u64 {
             if let Some(h) = fsck::valid_header(&img, slot, ps, false) {
@@ -126,8 +204,13 @@ fn run(case: &Case, dir: &str) -> Verdict {
             }
         }
     }
+    // the undamaged header pages (which format each slot is in)
+    let img_orig_headers: Vec<u8> = img[..(2 * ps) as usize].to_vec();
     let mut ex = Explorer::new(ps, dir);
     ex.skip_fsck = true;
+    if upgrade {
+        ex.counters.insert("legacy_file_then_commit_by_current_code".into(), 1);
+    }
     // sanity: the undamaged image shows the newest state
     if let Err(iv) = ex.judge(&img, len, &[state_new], false) {
         // the undamaged file already reads back wrong: C01's business, nothing to claim here
@@ -172,7 +255,8 @@ fn run(case: &Case, dir: &str) -> Verdict {
         img[base + d.off..base + end].copy_from_slice(&d.bytes[..end - d.off]);
         // Does the damage touch bytes that make a header what it is? The page-type byte, the
         // checksummed fields (record bytes 0..12 and 16..64) and the checksum itself.
-        let rec_end = fsck::REC_OFF + if legacy { fsck::REC_LEN_OLD } else { fsck::REC_LEN_NEW };
+        let slot_legacy = legacy && fsck::valid_header(&img_orig_headers, d.slot, ps, false).is_none();
+        let rec_end = fsck::REC_OFF + if slot_legacy { fsck::REC_LEN_OLD } else { fsck::REC_LEN_NEW };
         let matters = |o: usize| o == 8 || (fsck::REC_OFF..fsck::REC_OFF + 12).contains(&o) || (fsck::REC_OFF + 16..rec_end).contains(&o);
         let changed_meaningful = (d.off..end).any(|o| matters(o) && img[base + o] != saved[o - d.off]);
         let still_valid = if d.what == "other-record" || !changed_meaningful { Some(()) } else { None };
@@ -217,7 +301,7 @@ fn run(case: &Case, dir: &str) -> Verdict {
                 "page header"
             } else if d.off < fsck::REC_OFF + 64 {
                 "header field"
-            } else if d.off < fsck::REC_OFF + if legacy { 96 } else { 72 } {
+            } else if d.off < fsck::REC_OFF + if slot_legacy { 96 } else { 72 } {
                 "checksum"
             } else {
                 "rest of page"
@@ -238,12 +322,12 @@ fn run(case: &Case, dir: &str) -> Verdict {
                 step: 0,
                 in_rw_tx: false,
             });
-            v.extra_out = json!({"damage": d.to_json(), "commits": n_commits, "legacy": legacy});
+            v.extra_out = json!({"damage": d.to_json(), "commits": n_commits, "legacy": legacy, "upgrade": upgrade});
             break;
         }
     }
     if v.violation.is_none() {
-        v.extra_out = json!({"commits": n_commits, "legacy": legacy, "newest_slot": newest.slot, "images_in_this_run": ex.images,
+        v.extra_out = json!({"commits": n_commits, "legacy": legacy, "upgrade": upgrade, "newest_slot": newest.slot, "images_in_this_run": ex.images,
             "sample_damage": {"slot": newest.slot, "off": fsck::REC_OFF + 56, "what": "xor01 (a byte of the transaction id)"}});
     }
     v.counters = ex.counters.clone();
